@@ -215,39 +215,41 @@ impl<'a> Tokinizer<'a> {
 
     fn missing_token_adder(&mut self) {
         let mut index = 0;
-        
-        if self.tokens.is_empty() {
-            return;
-        }
-        
+
         for (token_index, token) in self.tokens.iter().enumerate() {
-            match token.deref() {
-                TokenType::Operator('=') | 
-                TokenType::Operator('(')=> {
-                    index = token_index as usize + 1;
-                    break;
-                },
-                _ => ()
-            };
+            if let TokenType::Operator('=') = token.deref() {
+                index = token_index as usize + 1;
+                break;
+            }
         }
 
-        if index + 1 >= self.tokens.len() {
-            return;
-        }
-
-        if let TokenType::Operator('(') = self.tokens[index].deref() {
-            index += 1;
-        }
-
+        /* An expression starts after '=' and after every '(' */
+        let mut expression_start = true;
         let mut operator_required = false;
-
-        if let TokenType::Operator(_) = self.tokens[index].deref() {
-            self.tokens.insert(index, Rc::new(TokenType::Number(0.0, NumberType::Decimal)));
-        }
 
         while index < self.tokens.len() {
             match self.tokens[index].deref() {
-                TokenType::Operator(_) => operator_required = false,
+                TokenType::Operator('(') => {
+                    if operator_required {
+                        log::debug!("Added missing operator between two token");
+                        self.tokens.insert(index, Rc::new(TokenType::Operator('+')));
+                        index += 1;
+                    }
+                    operator_required = false;
+                    expression_start  = true;
+                },
+                TokenType::Operator(')') => {
+                    operator_required = true;
+                    expression_start  = false;
+                },
+                TokenType::Operator(_) => {
+                    if expression_start {
+                        self.tokens.insert(index, Rc::new(TokenType::Number(0.0, NumberType::Decimal)));
+                        index += 1;
+                    }
+                    operator_required = false;
+                    expression_start  = false;
+                },
                 _ => {
                     if operator_required {
                         log::debug!("Added missing operator between two token");
@@ -255,6 +257,7 @@ impl<'a> Tokinizer<'a> {
                         index += 1;
                     }
                     operator_required = true;
+                    expression_start  = false;
                 }
             };
             
